@@ -399,7 +399,13 @@ func oracleC03(x *Exec, r *StepRec) {
 		case nd < od:
 			isRefund := r.Kind == "msg" && r.Msg.T == "refund" && bk == bkey(r.Msg.Svc, resolveAddr(r.Msg.Prov))
 			if isRefund {
-				refundable := ob.DisabledTime.Add(pre.Params.ArbitrationTimeLimit).Add(pre.Params.ComplaintRetrospect)
+				// the disabling time is the harness's own record (block time of the step that made the binding
+				// unavailable), not the stored field; the stored one is used only for bindings imported disabled
+				disabledAt := ob.DisabledTime
+				if bi := x.tr.Binds[bk]; bi != nil && bi.HasDisabledAt {
+					disabledAt = bi.DisabledAt
+				}
+				refundable := disabledAt.Add(pre.Params.ArbitrationTimeLimit).Add(pre.Params.ComplaintRetrospect)
 				switch {
 				case nd != 0:
 					x.viol("C03", "partial_refund", fmt.Sprintf("refund left deposit %d", nd), nil)
@@ -649,6 +655,17 @@ func oracleC13(x *Exec, r *StepRec) {
 			return
 		}
 	}
+	if r.Kind == "msg" && r.Msg.T == "setwd" {
+		// the owner's message takes effect: the stored address is the one it named
+		inForce := r.Sender // the owner itself unless another address is stored
+		if w, ok := post.Withdraw[hx(r.Sender)]; ok {
+			inForce = w
+		}
+		if want := resolveAddr(r.Msg.To); !bytes.Equal(inForce, want) {
+			x.viol("C13", "withdraw_address_not_set", fmt.Sprintf("owner %s set its withdrawal address to %x but %x is in force", addrName(hx(r.Sender)), want, inForce), nil)
+			return
+		}
+	}
 	if r.Kind != "msg" || r.Msg.T != "withdraw" {
 		return
 	}
@@ -681,7 +698,7 @@ func oracleC13(x *Exec, r *StepRec) {
 		x.stats.inc("probe_withdraw_owner_mode")
 	}
 	dest := owner
-	if w, ok := pre.Withdraw[hx(owner)]; ok {
+	if w, ok := x.tr.WithdrawAddr[hx(owner)]; ok {
 		dest = w
 		if !bytes.Equal(w, owner) {
 			x.stats.inc("probe_withdraw_to_other_address")
